@@ -177,7 +177,7 @@ def check_case(case):
 
         def worker(i):
             try:
-                barrier.wait(timeout=30)
+                barrier.wait(timeout=300)
                 rs = []
                 for rep in range(case.get("rounds", 2)):
                     rs = [run_item(it) for it in loads[i]]
@@ -192,7 +192,7 @@ def check_case(case):
             for t in ths:
                 t.start()
             for t in ths:
-                t.join(120)
+                t.join(600)
         finally:
             sys.setswitchinterval(old)
         if errors or any(r is None for r in results):
